@@ -406,13 +406,14 @@ func checkPluginNameValidated(p *Program, r *Result) {
 			continue
 		}
 		tb := p.TB(fn)
-		ret, err := successReturn(fn)
+		vret, err := successVRet(fn)
 		if err != nil {
 			r.Unk(fn.String(), "success:validated", "", err.Error())
 			continue
 		}
-		name := resultsOf(ret)[0]
-		facts := tb.FactsAt(ret.Block())
+		ret := vret.Ret
+		name := vret.Results[0]
+		facts := tb.FactsAt(vret.Block)
 		_, ok := findFact(facts, func(a Atom) bool {
 			return a.Kind == "call" && a.Pol && a.Call.S == pkgPlugin+".validPluginName" && len(a.Call.Args) == 1 && a.Call.Args[0].String() == tb.Term(name).String()
 		})
@@ -425,11 +426,11 @@ func checkPluginNameValidated(p *Program, r *Result) {
 		}
 		tb := p.TB(fn)
 		okAll := true
-		for _, ret := range returnsOf(fn) {
+		for _, ret := range virtualReturns(fn) {
 			if c, isC := ret.Results[0].(*ssa.Const); isC && c.Value.ExactString() == `""` {
 				continue
 			}
-			facts := tb.FactsAt(ret.Block())
+			facts := tb.FactsAt(ret.Block)
 			if _, ok := findFact(facts, func(a Atom) bool {
 				return a.Kind == "call" && a.Pol && short(a.Call.String()) == "plugin.validPluginName(P1)"
 			}); !ok {
